@@ -206,6 +206,7 @@ int main(int argc, char **argv)
         o.header = cfgline;
         o.tag = tag;
         world_build();
+        mcx_crash_prop = w_prop;
         mcx_verbose = verbose;
         if (replay && feedhex) replay = NULL;   /* sweep replay files carry the whole case in --feed-hex */
         if (feedhex) {
